@@ -15,7 +15,9 @@ RULE = ('exhaustive stratum: centre element (13 organic-subset elements; all 118
         'every multiset of <= 4 bonds of orders 1-3 to C/N/O (+H/F/S/Cl thorough), built through add_atom/add_bond; random stratum: '
         'whole Kekule molecules (corpus, curated, generator). oracles: re-derivation of the hydrogen count from the raw element '
         'tables, check_valence() == atoms without a state, RDKit GetTotalNumHs where both accept, molecule totals recomputed. '
-        'hydrogen bookkeeping: isotopic/explicit hydrogens attached through the API, explicify/implicify, several structural edits in one transaction, written bracket counts that are states of the tables. non-trivial = centre has a bond or charge or radical; distinct by (element, charge, radical, bond multiset)')
+        'hydrogen bookkeeping: isotopic/explicit hydrogens attached through the API, explicify/implicify, several structural edits in one transaction, written bracket counts that are states of the tables. non-trivial = centre has a bond or charge or radical; distinct by (element, charge, radical, bond multiset)'
+        '; also: canonicalize(keep_kekule x fix_tautomers) results are re-derived from the tables.'
+        '; also: the curated witness list is swept completely on every run.')
 ASSUMPTIONS = ['the documented table semantics as re-implemented in vf/oracles/valence_ref.py (first matching rule in table order)',
                'RDKit comparison is one-sided: only states both toolkits accept; elemental As/B/Si/P/Se/... conventions excluded '
                '(centre without bonds) and radicals excluded',
@@ -34,6 +36,7 @@ def shards(tier, seed):
                for i in range(0, 118, 4)]
         out += [dict(kind='exh', elements=[e], charges=[-2, -1, 0, 1, 2], nbrs=['C', 'N', 'O', 'H', 'F', 'S', 'Cl']) for e in ORGANIC]
     out += [dict(kind='mol', shard=i, n=1200 if tier == 'quick' else 8000) for i in range(6 if tier == 'quick' else 12)]
+    out.append(dict(kind='curated'))
     return out
 
 
@@ -48,6 +51,10 @@ def run_shard(shard, tier, seed):
                         for ms in itertools.combinations_with_replacement(range(len(opts)), k):
                             cases.append(dict(centre=el, charge=ch, radical=rad, bonds=[list(opts[i]) for i in ms]))
         return direct_run(ID, cases, check_case)
+    if shard['kind'] == 'curated':
+        # the curated witnesses are swept completely on every run (drawn cases meet a given witness only now and then)
+        return direct_run(ID, [{'mol': {'k': 'smi', 's': s}, 'hseed': (seed * 7919 + i) % 2 ** 20} for i, s in enumerate(molgen.curated())],
+                          check_case)
     strat = st.fixed_dictionaries({'mol': molgen.mol_specs(max_atoms=16), 'hseed': st.integers(0, 2 ** 20)})
     return hyp_run(ID, strat, check_case, max_examples=shard['n'], seed=seed * 1000 + shard['shard'])
 
